@@ -117,9 +117,10 @@ theorem arith_args {op : Op} (h : ArithOp op) {args : List Term} {p : Payload} {
 /-! ## the generic conclusion -/
 
 theorem res_of_ev {t r : Term} {τ : Ty} (hτ : Num τ) (ht : NT τ t) (hr : NT τ r)
-    (hs : ∀ I : Interp, I.WF → div0 I t = false → ev I r = ev I t ∧ div0 I r = false)
+    (hs : ∀ I : Interp, I.WF → Hyp I t → ev I r = ev I t)
+    (hdv : ∀ I : Interp, I.WF → div0 I t = false → div0 I r = false)
     (hfv : ∀ s ∈ r.fv, s ∈ t.fv) : Res t τ r :=
-  ⟨hr.2, hr.1, fun I hI hd => ⟨toQ_inj hτ (hr.sort hI) (ht.sort hI) (hs I hI hd).1, (hs I hI hd).2⟩, hfv⟩
+  Res.of_hyp hr.2 hr.1 (fun I hI hh => toQ_inj hτ (hr.sort hI) (ht.sort hI) (hs I hI hh)) hdv hfv
 
 /-! ## constants -/
 
@@ -324,10 +325,12 @@ theorem res_repayload {op : Op} (h : ArithOp op) {args : List Term} {p q : Paylo
   have hty' : (Term.node op args q).typeOf = some τ := by
     rw [typeOf_node, typeOfNode_arith h] at hty ⊢; exact hty
   obtain ⟨h1, h2, h3⟩ := arith_ne h
-  refine ⟨hty', wf_mk' (wf_args hwf) hq hty', fun I _ hd => ?_, fun s hs => ?_⟩
+  refine Res.of_hyp hty' (wf_mk' (wf_args hwf) hq hty') (fun I _ _ => ?_) (fun I _ hd => ?_) (fun s hs => ?_)
+  rotate_left
   · rw [div0_plain I op args p h3 hdiv] at hd
-    rw [div0_plain I op args q h3 hdiv, eval_plain I op args q h1 h2 h3, eval_plain I op args p h1 h2 h3]
-    refine ⟨?_, hd⟩
+    rw [div0_plain I op args q h3 hdiv]; exact hd
+  rotate_left
+  · rw [eval_plain I op args q h1 h2 h3, eval_plain I op args p h1 h2 h3]
     rcases h with rfl | rfl | rfl | rfl
     · rfl
     · match args with
@@ -355,9 +358,8 @@ theorem walkMinus_ok : RuleOK .minus walkMinus := by
       Res (.node .minus [sl, sr] p) τ (numTerm (some τ) c) := by
     intro c hc h
     obtain ⟨n1, n2, n3, _⟩ := numTerm_spec hτ hc
-    refine res_of_ev hτ ⟨hwf, hty⟩ n1 (fun I hI _ => ?_) (by rw [n3]; simp)
+    refine res_of_ev hτ ⟨hwf, hty⟩ n1 (fun I hI _ => ?_) (fun I _ _ => (n2 I).2) (by rw [n3]; simp)
     rw [(n2 I).1, hev I hI, h I hI]
-    exact ⟨rfl, (n2 I).2⟩
   unfold walkMinus
   simp only
   split
@@ -384,10 +386,11 @@ theorem walkMinus_ok : RuleOK .minus walkMinus := by
       exact this
     · split
       · next hz =>
-        refine res_of_ev hτ ⟨hwf, hty⟩ hl (fun I hI hd => ?_)
+        refine res_of_ev hτ ⟨hwf, hty⟩ hl (fun I hI _ => ?_)
+          (fun I _ hd => div0_args_false I .minus _ p rfl hd sl (by simp))
           (fun s hs => (mem_fv_plain (by simp) (by simp) rfl).mpr ⟨sl, by simp, hs⟩)
         rw [hev I hI, isZero_ev hz]
-        exact ⟨by ring, div0_args_false I .minus _ p rfl hd sl (by simp)⟩
+        ring
       · split
         · next heq =>
           subst heq
@@ -485,10 +488,11 @@ theorem res_div_repayload {a b : Term} {p q : Payload} {τ : Ty} (hn : NT τ (.n
   have hty' : (Term.node .div [a, b] q).typeOf = some τ := by
     have := hn.2
     rw [typeOf_node, typeOfNode_arith hop] at this ⊢; exact this
-  refine ⟨hty', wf_mk' (wf_args hn.1) rfl hty', fun I _ hd => ?_, fun s hs => ?_⟩
+  refine Res.of_hyp hty' (wf_mk' (wf_args hn.1) rfl hty') (fun I _ _ => ?_) (fun I _ hd => ?_) (fun s hs => ?_)
+  · rw [eval_div, eval_div]
   · rw [div0_div] at hd
-    rw [div0_div, eval_div, eval_div]
-    exact ⟨rfl, hd⟩
+    rw [div0_div]
+    exact hd
   · rw [mem_fv_plain (by simp) (by simp) rfl] at hs ⊢; exact hs
 
 theorem walkDiv_ok : RuleOK .div walkDiv := by
@@ -506,29 +510,42 @@ theorem walkDiv_ok : RuleOK .div walkDiv := by
   · next t ht => exact foldDiv_spec hn ht
   · split
     · next hz =>
-      refine Res.arg (by simp) (by simp) rfl (by simp) hl.1 hl.2 (fun I hI hd => ?_)
-      rw [div0_div] at hd
-      simp only [Bool.or_eq_false_iff, beq_eq_false_iff_ne, ne_eq] at hd
+      refine Res.arg (by simp) (by simp) rfl (by simp) hl.1 hl.2 (fun I hI hh => ?_)
+      -- `0 / x ↦ 0`: sound when no division by zero is evaluated, and when `0 / 0` is `0`
+      have hnz : (eval I sr ≠ .i 0 ∧ eval I sr ≠ .r 0) ∨ I.Tot := by
+        rcases hh with hd | ht
+        · rw [div0_div] at hd
+          simp only [Bool.or_eq_false_iff, beq_eq_false_iff_ne, ne_eq] at hd
+          exact Or.inl ⟨hd.1.2, hd.2⟩
+        · exact Or.inr ht
       rw [eval_div]
       rcases isZero_spec hz with rfl | rfl
       · have : τ = .int := by
           have := hl.2; rw [typeOf_int] at this; cases this; rfl
         subst this
         obtain ⟨m, hm⟩ := Val.hasSort_int (hr.sort hI)
-        rw [hm] at hd ⊢
-        have hm0 : m ≠ 0 := fun h => hd.1.2 (by rw [h])
+        rw [hm] at hnz ⊢
         rw [eval_intc]
-        simp only [Sem.div, hm0, if_false]
-        rw [show Int.ediv 0 m = 0 / m from rfl, Int.zero_ediv]
+        by_cases hm0 : m = 0
+        · subst hm0
+          rcases hnz with h | h
+          · exact absurd rfl h.1
+          · simp only [Sem.div, if_true]; rw [h.2]
+        · simp only [Sem.div, hm0, if_false]
+          rw [show Int.ediv 0 m = 0 / m from rfl, Int.zero_ediv]
       · have : τ = .real := by
           have := hl.2; rw [typeOf_real] at this; cases this; rfl
         subst this
         obtain ⟨m, hm⟩ := Val.hasSort_real (hr.sort hI)
-        rw [hm] at hd ⊢
-        have hm0 : m ≠ 0 := fun h => hd.2 (by rw [h])
+        rw [hm] at hnz ⊢
         rw [eval_realc]
-        simp only [Sem.div, hm0, if_false]
-        rw [zero_div]
+        by_cases hm0 : m = 0
+        · subst hm0
+          rcases hnz with h | h
+          · exact absurd rfl h.2
+          · simp only [Sem.div, if_true]; rw [h.1]
+        · simp only [Sem.div, hm0, if_false]
+          rw [zero_div]
     · split
       · next ho =>
         refine Res.arg (by simp) (by simp) rfl (by simp) hl.1 hl.2 (fun I hI _ => ?_)
@@ -575,11 +592,14 @@ theorem walkDiv_ok : RuleOK .div walkDiv := by
                 rcases hx with rfl | rfl
                 · exact hl.1
                 · exact wf_real _) rfl hty'
-            refine res_of_ev hτ hn ⟨hwf', hty'⟩ (fun I hI hd => ?_) (fun s hs => ?_)
+            refine res_of_ev hτ hn ⟨hwf', hty'⟩ (fun I hI _ => ?_) (fun I _ hd => ?_) (fun s hs => ?_)
+            rotate_left
             · have hdl := div0_args_false I .div _ p rfl hd sl (by simp)
-              rw [div0_plain I .times _ _ rfl (by simp), ev_times ⟨hwf', hty'⟩ hI]
-              simp only [List.map_cons, List.map_nil, qprod, ev_real, List.any_cons, hdl, div0_real, List.any_nil,
-                Bool.or_false, and_true]
+              rw [div0_plain I .times _ _ rfl (by simp)]
+              simp only [List.any_cons, hdl, div0_real, List.any_nil, Bool.or_false]
+            rotate_left
+            · rw [ev_times ⟨hwf', hty'⟩ hI]
+              simp only [List.map_cons, List.map_nil, qprod, ev_real]
               obtain ⟨m, hm⟩ := Val.hasSort_real (hl.sort hI)
               simp only [ev, eval_div, eval_realc, hm, Sem.div, hv0, if_false, toQ]
               rw [div_eq_mul_inv]; ring
@@ -657,8 +677,8 @@ theorem minus_good {τ t a b} (hτ : Num τ) (ha : Good τ t a) (hb : Good τ t 
   exact ⟨hg, fun I hI => ev_minus hg.1 hI⟩
 
 theorem res_of_good {t r : Term} {τ : Ty} (hτ : Num τ) (ht : NT τ t) (hr : Good τ t r)
-    (hs : ∀ I : Interp, I.WF → div0 I t = false → ev I r = ev I t) : Res t τ r :=
-  res_of_ev hτ ht hr.1 (fun I hI hd => ⟨hs I hI hd, hr.2.1 I hd⟩) hr.2.2
+    (hs : ∀ I : Interp, I.WF → Hyp I t → ev I r = ev I t) : Res t τ r :=
+  res_of_ev hτ ht hr.1 hs (fun I _ hd => hr.2.1 I hd) hr.2.2
 
 /-! ## flattening of nested sums / products -/
 
